@@ -719,6 +719,9 @@ static int _GD_AddSpec(DIRFILE* D, const char* line, const char* parent,
         NULL);
     if (E == NULL)
       GD_SET_RETURN_ERROR(D, GD_E_BAD_CODE, GD_E_CODE_MISSING, NULL, 0, parent);
+    else if (E->e->n_meta == -1 || E->field_type == GD_ALIAS_ENTRY)
+      /* the parent may not itself be a metafield or an alias */
+      GD_SET_RETURN_ERROR(D, GD_E_BAD_CODE, GD_E_CODE_INVALID, NULL, 0, parent);
     else
       me = E->fragment_index;
   } else if (me < 0 || me >= D->n_fragment) /* fragment index out of range */
